@@ -58,6 +58,10 @@ def table_text(deps):
             args.append("-j")
         if d.get("external"):
             args.append("--external")
+        if d.get("t"):
+            args += ["-t", d["t"]]          # a tag of this line's own: in front of the VRO for this line only
+        if d.get("vro"):
+            args += ["--vro", d["vro"]]      # a VRO of this line's own (one word)
         args.append(d["n"])
         if d.get("v"):
             args.append(d["v"])
